@@ -11,7 +11,9 @@ import time
 import traceback
 
 ROOT = os.path.dirname(os.path.dirname(os.path.abspath(__file__)))
-EVIDENCE_DIR = os.path.join(ROOT, "evidence")
+# runs against a scratch copy of paramiko (mutant / fix trials) must not overwrite real evidence
+_SCRATCH = os.environ.get("VERIF_REPO", "/repo") != "/repo"
+EVIDENCE_DIR = os.path.join(ROOT, "evidence-scratch" if _SCRATCH else "evidence")
 REPLAY_DIR = os.path.join(ROOT, "replays")
 KNOWN_FILE = os.path.join(ROOT, "known_findings.json")
 NCPU = int(os.environ.get("VERIF_WORKERS", "0")) or min(16, os.cpu_count() or 1)
